@@ -395,7 +395,11 @@ func valueFromAST(valueAST ast.Value, ttype Input, variables map[string]interfac
 			var value interface{}
 			if of, ok = fieldASTs[name]; ok {
 				value = valueFromAST(of.Value, field.Type, variables)
-			} else {
+			}
+			// A field that is missing, or given through a variable that has
+			// no value, takes the field's default (as coerceValue does for
+			// the same object supplied through a variable).
+			if isNullish(value) {
 				value = field.DefaultValue
 			}
 			if !isNullish(value) {
